@@ -1,6 +1,6 @@
 (* C15: a negative "entries" anywhere is rejected, for every primitive, every document. *)
-From Coq Require Import ZArith List String Ascii Bool Lia.
-From Hgm Require Import NumOps Agg Ops Build Snap Json JsonFacts.
+From Coq Require Import ZArith List String Ascii Bool Lia FinFun.
+From Hgm Require Import NumOps Agg Ops Build Snap Json JsonFacts SL KeyFacts.
 Import ListNotations.
 Local Open Scope string_scope.
 
@@ -115,5 +115,52 @@ Section Neg.
     all: repeat match goal with H : negb _ = false |- _ => apply negb_false_iff in H end.
     all: repeat match goal with H : (_ =? _)%nat = true |- _ => apply Nat.eqb_eq in H end.
     all: rewrite ?app_length, ?map_length in *; cbn [List.length] in *; lia.
+  Qed.
+
+  (* ---------- Categorize: one bin per key of the "bins" object (a Python dict: distinct keys) ---------- *)
+  Lemma upd_len_new {V} k (f : option V -> V) (acc : list (key * V)) :
+    sl_lookup key_cmp k acc = None -> List.length (sl_upd key_cmp k f acc) = S (List.length acc).
+  Proof.
+    induction acc as [|[k' v] acc IH]; intro H; [reflexivity|]. cbn [sl_lookup] in H. cbn [sl_upd].
+    destruct (key_cmp k k'); [discriminate | reflexivity |]. cbn [List.length]. rewrite IH by exact H. reflexivity.
+  Qed.
+
+  Lemma fold_upd_len {V} (kcs : list (key * V)) : forall acc,
+    NoDup (map fst kcs) -> (forall kc, In kc kcs -> sl_lookup key_cmp (fst kc) acc = None) ->
+    sorted key_cmp acc ->
+    List.length (fold_left (fun a (kc : key * V) => sl_upd key_cmp (fst kc) (fun _ => snd kc) a) kcs acc) =
+    (List.length acc + List.length kcs)%nat.
+  Proof.
+    induction kcs as [|[k c] kcs IH]; intros acc ND HN S; cbn [fold_left List.length fst snd]; [lia|].
+    cbn [map fst] in ND. inversion ND as [|? ? Hnotin ND']; subst.
+    rewrite IH.
+    - rewrite upd_len_new by (apply (HN (k, c)); left; reflexivity). lia.
+    - exact ND'.
+    - intros kc Hkc. rewrite (lookup_upd key_cmp key_cmp_eq key_cmp_antisym key_cmp_trans) by exact S.
+      destruct (key_cmp (fst kc) k) eqn:C.
+      + apply key_cmp_eq in C. exfalso. apply Hnotin. rewrite <- C. apply in_map. exact Hkc.
+      + apply HN. right. exact Hkc.
+      + apply HN. right. exact Hkc.
+    - apply (sorted_upd key_cmp key_cmp_antisym key_cmp_trans). exact S.
+  Qed.
+
+  Theorem categorize_keeps_every_bin fuel (o : list (string * json)) p a kvs :
+    from_frag fuel "Categorize" (JObj o) p = Ok a -> jget "bins" o = Some (JObj kvs) ->
+    NoDup (map fst kvs) -> n_children a = List.length kvs.
+  Proof.
+    intros H E ND. destruct fuel as [|fuel]; [discriminate|].
+    cbn [from_frag String.eqb Ascii.eqb Bool.eqb orb andb] in H. rewrite E in H.
+    walkH H. injection H as <-. cbn [n_children].
+    match goal with Hr : all_ok (map ?f kvs) = Ok ?x |- _ =>
+      pose proof (all_ok_Forall2 f kvs x Hr) as F2 end.
+    assert (Hk : map fst x = map (fun kv => KStr (fst kv)) kvs).
+    { clear -F2. induction F2 as [|kv kc l l' Hh _ IH]; [reflexivity|]. cbn [map]. f_equal; [|exact IH].
+      destruct (from_frag fuel _ (snd kv) _); [injection Hh as <-; reflexivity | discriminate]. }
+    rewrite fold_upd_len.
+    - cbn [List.length]. apply Forall2_len in F2. lia.
+    - rewrite Hk. rewrite <- map_map. apply FinFun.Injective_map_NoDup; [|exact ND].
+      intros s1 s2 E12. injection E12 as ->. reflexivity.
+    - intros kc _. reflexivity.
+    - constructor.
   Qed.
 End Neg.
